@@ -140,6 +140,7 @@ func (svd *SVD) Factorize(a Matrix, kind SVDKind) (ok bool) {
 	putFloat64s(work)
 	if !ok {
 		svd.kind = 0
+		svd.s = svd.s[:0]
 	}
 	return ok
 }
